@@ -103,7 +103,12 @@ func TestVerifC10(t *testing.T) {
 	// to be folded into the snapshot state, so that the markers have to survive in the state alone
 	// junkA: a line the IRC parser cannot make a message of (a prefix without a command) is a message like any
 	// other as far as the log and the duplicate detection are concerned
-	alphabet := []string{"postA", "retryA", "pingA", "junkA", "postB", "retryB", "postS", "retryS", "deathA", "snapshot", "foldsnapshot", "restart"}
+	alphabet := []string{"postA", "retryA", "postB", "retryB", "postS", "retryS", "deathA", "snapshot", "foldsnapshot", "restart"}
+	if os.Getenv("VERIF_C10_ALPHA") == "kinds" {
+		// second pass: the kinds of "last message" other than a channel message -- a PING, a line the parser makes
+		// nothing of, a message stamped before the session's last activity (a new leader whose clock lags)
+		alphabet = []string{"pingA", "junkA", "pastA", "retryA", "deathA", "snapshot", "foldsnapshot", "restart"}
+	}
 	base := t.TempDir()
 	seqs := vSeqs(alphabet, depth)
 	if rp := os.Getenv("VERIF_REPLAY"); rp != "" {
@@ -169,6 +174,16 @@ func TestVerifC10(t *testing.T) {
 				p := &c10Posted{sess: who, text: fmt.Sprintf("msg-%s-%d", who, oi), cmid: next()}
 				if r := n.post(sess[who], line(who, p.text), p.cmid); r.Code != 200 {
 					res.report(sigs, "C10", "POST refused", fmt.Sprintf("op %d of %v: %d %s", oi, seq, r.Code, r.Body), seq)
+				}
+				last[who] = p
+				posted = append(posted, p)
+			case strings.HasPrefix(op, "past"):
+				// committed by a leader whose clock is 1.5 s behind the one that committed the session's previous
+				// message (the time safeguard tolerates up to 2 s): applied like any other message
+				p := &c10Posted{sess: who, text: fmt.Sprintf("msg-%s-%d", who, oi), cmid: next()}
+				m := &robust.Message{Session: robust.Id{Id: sess[who].Num}, Type: robust.IRCFromClient, Data: "PRIVMSG #c :" + p.text, ClientMessageId: p.cmid, UnixNano: time.Now().Add(-1500 * time.Millisecond).UnixNano()}
+				if err := n.api.ApplyMessageWait(m, 10*time.Second); err != nil {
+					fail(err)
 				}
 				last[who] = p
 				posted = append(posted, p)
